@@ -362,6 +362,11 @@ def gen_events(rng, fmt):
         if rng.random() < 0.6 and pos:
             p = rng.choice([0] + pos)
         labels.append((frac(rng, p) if p > 0 else 0, rng.choice(LABELS[1:] + [''])))
+    if rng.random() < 0.2:
+        # compound scans that only begin after the first scan(s): no label on dump 0, a scan starting on dump 1 or 2
+        q = rng.choice([1, 1, 2])
+        acts = [acts[0]] + [(q, rng.choice(['track', 'scan', 'stop']))] + [a for a in acts[1:] if int(a[0] + 0.5) > q]
+        labels = [(q, rng.choice(LABELS[1:]))] + [l for l in labels if int(l[0] + 0.5) > q]
     labels = sorted(set(labels), key=lambda x: x[0])
     labels = [l for i, l in enumerate(labels) if i == 0 or l[0] != labels[i - 1][0]]
     nt = rng.choice([1, 1, 2, 2, 3, 4])
@@ -633,7 +638,7 @@ def run(ctx):
             run_iter_case(ctx, ob, hist, mode, ('harness', oseed, nhist, j))
         ctx.count('observations')
     # (b) real format classes: segmentation + iterators
-    nreal = ctx.scale(40, 500)
+    nreal = ctx.scale(90, 1200)
     for _ in range(nreal):
         run_real(ctx, rng.randrange(1 << 30), 3)
     nv1 = ctx.scale(6, 60)
